@@ -134,6 +134,10 @@ def replay_walk(walk):
             d = moved(before, after, sigma)
             if d:
                 viol(k, "QueryDoesNotMove: %s%s" % (a["q"], (" (%s)" % a["bounded"]) if a.get("bounded") not in (None, "no") else ""), dict(action=a, moved=d))
+                # known finding: iminuit re-runs MIGRAD after a contour / profile; only the symmetric uncertainties change, by a few percent
+                if backend == "iminuit" and a["q"] in ("contour", "profile") and d.startswith("symmetric uncertainties changed") \
+                        and np.allclose(after["perr"], before["perr"], rtol=0.15, atol=1e-9):
+                    issues[-1]["kf"] = "KF-C08-IMINUIT-ERRORS-AFTER-QUERY"
                 return issues
             key = (a["q"], a["p"], a.get("bounded"))
             if key in answers:
